@@ -759,34 +759,44 @@ Proof.
 Qed.
 
 (* ---- anchored input ---- *)
+Theorem anchored_n_refines h g s bs count h' g' :
+  GInv h g -> R h g s -> nlen bs <= count -> anchored_n h bs count g = Some (h', g') ->
+  GInv h' g' /\ exists merged, R h' g' (Pipe.push merged bs s).
+Proof.
+  intros I Rs Hcount E. unfold anchored_n in E.
+  destruct (N.eq_dec count 0) as [Hz|Hnz].
+  - (* nothing asked for: read_n returns the default slice without touching the arena *)
+    subst count. assert (bs = []) by (apply nlen_zero; lia). subst bs. cbn in E. inversion E; subst h' g'.
+    destruct (set_cache_refines h g s (gcache_ g) I Rs (gi_cache h g I)) as (I' & R'). split; [exact I'|]. exists false. exact R'.
+  - assert (Hcpos : 0 < count) by lia.
+    destruct (arena_read_n h (gcache_ g) bs count) as [[[[hp kp'] sp] ap]|] eqn:EA; [|discriminate].
+    destruct (arena_read_n_spec _ _ _ _ _ _ _ _ (gi_cache h g I) (gi_heap h g I) Hcpos Hcount EA)
+      as (kp & -> & Hk' & Hh' & _ & Hframe & Hbytes & Enew & Hle & Hok & Hend & Ea & _).
+    destruct (frame_refines h hp g s (Some kp) I Rs Hh' Hk' Hframe) as (I1 & R1).
+    destruct bs as [|b0 bs0] eqn:Ebs.
+    + (* nothing delivered: the slice is empty, only the cache may have moved *)
+      rewrite Enew in E. cbn [sl_len nlen length N.of_nat] in E. cbn in E. inversion E; subst h' g'.
+      split; [exact I1|]. exists false. exact R1.
+    + rewrite <- Ebs in *. assert (Hne : bs <> []) by (rewrite Ebs; discriminate). specialize (Hok Hne).
+      pose proof (sl_len_pos hp sp Hok) as Hpos.
+      destruct (sl_len sp =? 0) eqn:E0; [apply N.eqb_eq in E0; lia|].
+      destruct (push hp sp (set_cache (Some kp) g)) as [[h2 g2]|] eqn:EP; [|discriminate].
+      inversion E; subst h' g'. clear E.
+      assert (Hpush : GInv h2 g2 /\ exists merged, R h2 g2 (Pipe.push merged bs s)).
+      { unfold push in EP.
+        match type of EP with (if ?c then _ else _) = _ => destruct c end.
+        - rewrite Hbytes in EP. eapply push_copy_refines; eauto.
+        - destruct (push_borrowed sp (set_cache (Some kp) g)) as [gx|] eqn:EB; [|discriminate]. inversion EP; subst h2 gx.
+          rewrite <- Hbytes. apply (push_borrowed_gen hp (set_cache (Some kp) g) s sp g2 I1 R1 Hok); [|exact EB].
+          cbn [set_cache gslices]. intros s0 Hin. rewrite Enew. exact (in_sl_before_new h g kp (nlen bs) s0 I Hend Hin). }
+      destruct Hpush as (I2 & merged & R2).
+      destruct (push_anchor_refines h2 g2 _ ap I2 R2) as (I3 & R3).
+      split; [exact I3|]. exists merged. exact R3.
+Qed.
 Theorem anchored_refines h g s bs h' g' :
   GInv h g -> R h g s -> anchored h bs g = Some (h', g') ->
   GInv h' g' /\ exists merged, R h' g' (Pipe.push merged bs s).
-Proof.
-  intros I Rs E. unfold anchored in E. destruct bs as [|b0 bs0] eqn:Ebs.
-  - cbn in E. inversion E; subst h' g'.
-    destruct (set_cache_refines h g s (gcache_ g) I Rs (gi_cache h g I)) as (I' & R'). split; [exact I'|]. exists false. exact R'.
-  - rewrite <- Ebs in *. assert (Hne : bs <> []) by (rewrite Ebs; discriminate).
-    rewrite (arena_read_n_as_copy h (gcache_ g) bs (gi_cache h g I) (gi_heap h g I) Hne) in E.
-    destruct (arena_copy h (gcache_ g) bs None) as [[[[[hp kp] sp] o'] f']|] eqn:EA; [|discriminate].
-    destruct (arena_copy_spec _ _ _ _ _ _ _ _ _ (gi_cache h g I) (gi_heap h g I) EA)
-      as (_ & Hk' & Hh' & _ & Hframe & Hok & Hbytes & Hle & Enew & Hend & _ & _).
-    destruct (frame_refines h hp g s (Some kp) I Rs Hh' Hk' Hframe) as (I1 & R1).
-    pose proof (sl_len_pos hp sp Hok) as Hpos.
-    destruct (sl_len sp =? 0) eqn:E0; [apply N.eqb_eq in E0; lia|].
-    destruct (push hp sp (set_cache (Some kp) g)) as [[h2 g2]|] eqn:EP; [|discriminate].
-    inversion E; subst h' g'. clear E.
-    assert (Hpush : GInv h2 g2 /\ exists merged, R h2 g2 (Pipe.push merged bs s)).
-    { unfold push in EP.
-      match type of EP with (if ?c then _ else _) = _ => destruct c end.
-      - rewrite Hbytes in EP. eapply push_copy_refines; eauto.
-      - destruct (push_borrowed sp (set_cache (Some kp) g)) as [gx|] eqn:EB; [|discriminate]. inversion EP; subst h2 gx.
-        rewrite <- Hbytes. apply (push_borrowed_gen hp (set_cache (Some kp) g) s sp g2 I1 R1 Hok); [|exact EB].
-        cbn [set_cache gslices]. intros s0 Hin. rewrite Enew. exact (in_sl_before_new h g kp (nlen bs) s0 I Hend Hin). }
-    destruct Hpush as (I2 & merged & R2).
-    destruct (push_anchor_refines h2 g2 _ {| acount := 1; achunk := Some (kchunk kp) |} I2 R2) as (I3 & R3).
-    split; [exact I3|]. exists merged. exact R3.
-Qed.
+Proof. intros I Rs E. apply (anchored_n_refines h g s bs (nlen bs) h' g' I Rs (N.le_refl _)). exact E. Qed.
 
 (* ---- Read: one advance per front slice; on the pipe side a sequence of reads ---- *)
 Fixpoint pipe_reads (ws : list nat) (s : Pipe.st) : Pipe.st * list N :=
